@@ -383,3 +383,32 @@ pub fn run_world_case(l: &[i64]) -> Vec<i64> {
     out
 }
 
+
+// Case kind 8: [n; i] -> Axle::<n>::get_terminal(i) from safe code: must panic when i >= n
+fn axle_get<const N: usize>(i: usize) -> Vec<i64> {
+    let a: &'static mut Axle<'static, N, E> = leak(Axle::new());
+    let t = a.get_terminal(i);
+    // the address is compared, never dereferenced, when out of range
+    let base = a as *const _ as usize;
+    let addr = t as *const _ as usize;
+    let inside = addr >= base && addr < base + core::mem::size_of::<Axle<'static, N, E>>().max(1);
+    vec![if inside { 0 } else { 96 }]
+}
+pub fn run_axle_index_case(l: &[i64]) -> Vec<i64> {
+    if l.len() != 2 || l[1] < 0 {
+        return vec![W_PANIC];
+    }
+    let i = l[1] as usize;
+    match l[0] {
+        0 => axle_get::<0>(i),
+        1 => axle_get::<1>(i),
+        2 => axle_get::<2>(i),
+        3 => axle_get::<3>(i),
+        4 => axle_get::<4>(i),
+        5 => axle_get::<5>(i),
+        6 => axle_get::<6>(i),
+        7 => axle_get::<7>(i),
+        8 => axle_get::<8>(i),
+        _ => vec![W_BAD],
+    }
+}
